@@ -131,7 +131,9 @@ func genC07(c *Ctx, r *rng.R, i int) {
 	// --- conformance: constraint derived from a (generalised), from b, or resolved the other way
 	var con *gt.T
 	crel := ""
-	switch r.Intn(4) {
+	switch r.Intn(5) {
+	case 4:
+		con, crel = gt.Mutate(r, a, cfg), "mutant-of-t"
 	case 0:
 		con, crel = gt.Generalize(r, a), "generalised"
 	case 1:
